@@ -304,6 +304,9 @@ func genAnyField(r *Rng, num int) ([3]int, []byte) {
 	size := b.Size * r.Range(1, 3)
 	if b.String {
 		size = r.Range(1, 12)
+		if r.Chance(1, 6) {
+			size = 0 // a string field of width 0 is legal: listed in the definition, no bytes in the record
+		}
 	}
 	return [3]int{num, size, int(b.Byte)}, r.Bytes(size)
 }
@@ -929,5 +932,10 @@ func manyDefsStream(r *Rng, n int) *RecStream {
 	}
 	rec()
 	rec()
+	if r.Bool() {
+		// the file's very first definition is still in force too: a second file_id
+		// record of the same type under it
+		g.emitData(0, false, 0, []byte{4})
+	}
 	return &RecStream{Header: HeaderSpec{Size: 12 + 2*r.Intn(2), Proto: 0x20, Profile: 2115, HCRC: "ok"}, Ops: g.ops}
 }
